@@ -11,7 +11,6 @@ import (
 
 	tb "github.com/tonkeeper/tongo/boc"
 
-	"verif/conv"
 	"verif/fw"
 	"verif/mc/enum"
 	"verif/realdata"
@@ -79,27 +78,13 @@ func probe(c *enum.Ctx, in []byte, tag string, wrappers bool) string {
 			if i > 2 {
 				break
 			}
-			// The statement promises that hashing, printing and re-serialising a returned cell terminate.
-			// If the reference model accepts the graph (all exotic cells well-formed) they must also not panic;
-			// for a malformed exotic cell (e.g. a pruned branch too short for its mask) a panic is recorded as an
-			// observation only: the parser's contract is stated in terms of bits/refs/acyclicity.
-			if _, cerr := conv.FromTongo(r); cerr == nil {
-				c.Try("panic:Hash:"+tag, func() { _, _ = r.Hash() })
-				c.Try("panic:ToBoc:"+tag, func() { _, _ = r.ToBoc() })
-				c.Try("panic:ToString:"+tag, func() { _ = r.ToString() })
-				c.Try("panic:MarshalJSON:"+tag, func() { _, _ = r.MarshalJSON() })
-			} else {
-				func() {
-					defer func() {
-						if recover() != nil {
-							outcome = "roots-malformed-exotic-post-panic"
-						}
-					}()
-					_, _ = r.Hash()
-					_, _ = r.ToBoc()
-					_ = r.ToString()
-				}()
-			}
+			// The statement promises that hashing, printing and re-serialising a returned cell terminate; a crash of the
+			// process is not termination of the call (the property's rationale is remote denial of service: bytes from
+			// a lite server or an HTTP client are parsed and then hashed). Errors are fine, panics are not.
+			c.Try("panic:Hash:"+tag, func() { _, _ = r.Hash() })
+			c.Try("panic:ToBoc:"+tag, func() { _, _ = r.ToBoc() })
+			c.Try("panic:ToString:"+tag, func() { _ = r.ToString() })
+			c.Try("panic:MarshalJSON:"+tag, func() { _, _ = r.MarshalJSON() })
 		}
 	}
 	if wrappers && len(in) <= 600 {
